@@ -1075,10 +1075,10 @@ func (t *tr) binary(x *ast.BinaryExpr) (string, T) {
 		// the right operand is evaluated only when needed: its preliminary statements go into a branch
 		save := t.lines
 		t.lines = nil
-		t.ind++
+		t.ind += 2
 		b, _ := t.expr(x.Y)
 		pre := t.lines
-		t.ind--
+		t.ind -= 2
 		t.lines = save
 		op := " && "
 		if x.Op == token.LOR {
@@ -1088,21 +1088,19 @@ func (t *tr) binary(x *ast.BinaryExpr) (string, T) {
 			return "(" + a + op + b + ")", tBool
 		}
 		n := t.fresh()
+		t.emit("let %s ← do", n)
 		if x.Op == token.LAND {
-			t.emit("let %s ← (do", n)
 			t.emit("  if %s then", a)
 		} else {
-			t.emit("let %s ← (do", n)
 			t.emit("  if !%s then", a)
 		}
-		for _, l := range pre {
-			t.lines = append(t.lines, "    "+l)
-		}
+		t.lines = append(t.lines, pre...)
 		t.emit("    pure %s", b)
+		t.emit("  else")
 		if x.Op == token.LAND {
-			t.emit("  else pure false)")
+			t.emit("    pure false")
 		} else {
-			t.emit("  else pure true)")
+			t.emit("    pure true")
 		}
 		return n, tBool
 	}
